@@ -80,7 +80,7 @@ M = [
      "        if not allow_baseless and ret._ublock(0).prev_patch is not None:", "        if False and ret._ublock(0).prev_patch is not None:"),
     # ---------------- C05 merge
     ("c05_root_attrs_not_copied", "C05", S + "ih5/record.py",
-     "            for k, v in source_node.attrs.items():  # copy root attributes\n                target_node.attrs[k] = v\n", ""),
+     "            for k, v in source_node.attrs.items():  # copy root attributes\n                target_node.attrs[k] = attr_value_for_copy(v)\n", ""),
     ("c05_merged_keeps_prev_patch", "C05", S + "ih5/record.py",
      "        ub = self._ublock(-1).copy(update={\"prev_patch\": self._ublock(0).prev_patch})", "        ub = self._ublock(-1).copy()"),
     ("c05_fresh_patch_uuid", "C05", S + "ih5/record.py",
@@ -117,7 +117,7 @@ M = [
     ("c07_setitem_duplicate_check_removed", "C07,C06", S + "container/interface.py",
      "        if self._get_raw(schema_name):  # <- only same schema", "        if False and self._get_raw(schema_name):  # <- only same schema"),
     ("c07_revert_set_raw_key", "C07", S + "container/interface.py",
-     "        self._objs[schema_ref.name] = stored_obj", "        self._objs[schema_ref] = stored_obj"),
+     "            ret[obj.schema.name] = obj", "            ret[obj.schema] = obj"),
     ("c07_aux_schema_accepted", "C07", S + "container/interface.py",
      "        if schema_class.Plugin.auxiliary:  # reject auxiliary schemas in container", "        if False and schema_class.Plugin.auxiliary:  # reject auxiliary schemas in container"),
     ("c07_toc_versions_filter_reversed", "C07", S + "container/interface.py",
